@@ -550,6 +550,10 @@ def long_strings() -> list:
         out.append((f'sp@{k}', 'x' * k + ' ' + 'y' * (1499 - k)))
         out.append((f'quote@{k}', 'x' * k + '"' + 'y' * (1499 - k)))
         out.append((f'bslash@{k}', 'x' * k + '\\' + 'y' * (1499 - k)))
+    # runs of escapable characters ending at every column around the hard cut (their escaped forms are 2, 4, 6 characters long)
+    for k in range(990, 1003):
+        for tag, run in (('bs2', '\\\\'), ('bs3', '\\\\\\'), ('bsq', '\\"'), ('qq', '""'), ('bs2q', '\\\\"')):
+            out.append((f'{tag}@{k}', 'x' * k + run + 'y' * (1499 - k)))
     out.append(('sp_then_quote@999', 'x' * 500 + ' ' + 'y' * 498 + '"' + 'z' * 500))
     out.append(('nl_then_quote@999', 'x' * 500 + '\n' + 'y' * 497 + '"' + 'z' * 500))
     return out
@@ -749,7 +753,19 @@ def menus() -> dict:
     def chain(spec):
         spec['ents'].insert(0, ents('Root', 'BASE', ins=[ios('Kill')]))
         ent_by_id(spec, 'Base0')['bases'] = ['Root']
-    m['bases'] = [('none', False, setter(ent_a, 'bases', [])), ('two', True, two_bases), ('chain', False, chain)]
+    def deep_then_shallow(spec):
+        # the entity lists a deep base first and one of that base's own ancestors last
+        spec['ents'].insert(0, ents('Root', 'BASE', ins=[ios('Kill')]))
+        spec['ents'].insert(1, ents('Mid', 'BASE', kvs=[kvs('midkey', 'INT', 'Mid', '3', '')]))
+        ent_by_id(spec, 'Mid')['bases'] = ['Root']
+        ent_by_id(spec, 'Base0')['bases'] = ['Mid']
+        ent_a(spec)['bases'] = ['Base0', 'Root']
+
+    def shallow_then_deep(spec):
+        deep_then_shallow(spec)
+        ent_a(spec)['bases'] = ['Root', 'Base0']
+    m['bases'] = [('none', False, setter(ent_a, 'bases', [])), ('two', True, two_bases), ('chain', False, chain),
+                  ('deep_then_shallow', False, deep_then_shallow), ('shallow_then_deep', False, shallow_then_deep)]
     # S. keyvalue order
     m['kvorder'] = [('reversed', True, setter(ent_a, 'kv_order', ['key2', 'key1'])),
                     ('partial', False, setter(ent_a, 'kv_order', ['key2'])),
